@@ -64,6 +64,8 @@ class TimedCondsEffs:
                     return False
                 elif set(el) != set(oth_el):
                     return False
+            if len(self._simulated_effects) != len(oth._simulated_effects):
+                return False
             for t, se in self._simulated_effects.items():
                 oth_se = oth._simulated_effects.get(t, None)
                 if oth_se is None:
